@@ -24,7 +24,8 @@ ALGS = list(model.ALGS)
 
 # model environment at generation time: "$FX" stands for the sandbox fixture directory
 GEN_ENV = {"root": "$", "cwd": "$CWD", "paths": {"$FX": "dir", "$FX/file.txt": "file", "$FX/dir": "dir",
-                                                  "$FX/dir/inner.txt": "file"}}
+                                                  "$FX/dir/inner.txt": "file", "$CWD/fx": "dir", "$CWD/fx/file.txt": "file",
+                                                  "$CWD/fx/dir": "dir", "$CWD/fx/dir/inner.txt": "file", "$CWD": "dir"}}
 
 
 def pick_keys(rng, n, avoid=()):
@@ -101,8 +102,8 @@ def gen_params(rng, fam, allow_k5=False, boundary=True):
             p["allow_ipv4"] = rng.random() < 0.5
     elif fam == "file":
         p["exists"] = rng.choice([None, None, True, False, "dir", "file"])
-        if rng.random() < 0.5:
-            p["startdir"] = "$FX"
+        if rng.random() < 0.6:
+            p["startdir"] = rng.choice(["$FX", "$FX", "fx", "fx/dir", "$FX/dir"])
     elif fam == "bytes":
         p["encoding"] = rng.choice(["base64", "hex"])
     elif fam == "secure":
@@ -229,7 +230,8 @@ def candidates(rng, f, n, env=None):
     elif fam == "bytes":
         pool = [b"", b"\x00\xff", b"plain", "text", "\u00e9", bytearray(b"x"), b"x" * 100, "", "YWJj", b"\x80abc"]
     elif fam == "secure":
-        pool = ["tk%016x" % rng.getrandbits(64), "", "pass word", "\u00e9\u4e2d", "x" * 50, "a"]
+        pool = ["tk%016x" % rng.getrandbits(64), "", "pass word", "\u00e9\u4e2d", "x" * 50, "a", "p" * 16, "q" * 32, "\u00e9" * 8,
+                "sixteen-bytes-ok" + chr(1), "r" * 48, "block-aligned-16"]
     elif fam == "challenge":
         pool = ["pw", b"pw", "", b"", "\u00e9", "x" * 200, DigestSpec(f["params"].get("hash_algorithm", "sha256"), "pw"),
                 DigestSpec(f["params"].get("hash_algorithm", "sha256"), b"\x00\x01")]
